@@ -221,7 +221,8 @@ FileErrs(file, ds) ==
 
 \* evaluated when an acquisition that reported no failure and appended >= 1 frame is finished
 StopCheck(m, d, g) ==
-  IF ~(Ghost /\ g.clean /\ Len(g.dirs) >= 1) THEN m
+  \* (a failing write while stopping cannot be reported by leaving Running; the file clauses assume no OS failure)
+  IF ~(Ghost /\ g.clean /\ Len(g.dirs) >= 1 /\ ~m.failed) THEN m
   ELSE LET t == m.t
            e1 == FileErrs(m.files[t.file], g.dirs)
            e2 == IF g.dirs[1].dl # FrameKinds[g.dirs[1].k].s + (IF g.want THEN MetaSz ELSE 0)
